@@ -14,6 +14,7 @@ from .. import gen
 from .common import wmod, newworld
 
 CALLS = []
+EXTRA_TAGS = {}      # node index -> tags set on it after construction (this case)
 
 
 def tagval(i):
@@ -152,6 +153,11 @@ def check_node(I, defs, i, iro):
     for j in iro:
         if defs[j]:
             exptags |= {'t', 'only%d' % j, 'invariants'}
+    for j in iro:
+        for t in EXTRA_TAGS.get(j, ()):
+            exptags.add(t)
+            if X.queryTaggedValue(t, 'ABSENT') == 'ABSENT':
+                return ('queryTaggedValue-of-a-tag-set-later', i, t)
     if set(X.getTaggedValueTags()) != exptags:
         return ('getTaggedValueTags', i, sorted(X.getTaggedValueTags()), sorted(exptags))
     if X.queryDirectTaggedValue('t', 'ABSENT') != (tagval(i) if defs[i] else 'ABSENT'):
@@ -210,6 +216,7 @@ def reach(I, s):
 def eval_case(case):
     dag, defs, hist, warm = case[:4]
     obs = case[4] if len(case) > 4 else None
+    EXTRA_TAGS.clear()
     I, O, mod = build(dag, defs, obs)
     if warm:
         v = check_all(I, defs)       # fills the caches before the rebasing
@@ -218,7 +225,14 @@ def eval_case(case):
     if O:
         O.armed = True
     for op in hist:
-        if op[0] == 'swap':
+        if op[0] == 'settag':
+            # a tagged value set on an existing interface after its descendants
+            # were queried
+            k = op[1]
+            t = 'late%d' % k
+            I[k].setTaggedValue(t, ('late', k))
+            EXTRA_TAGS.setdefault(k, set()).add(t)
+        elif op[0] == 'swap':
             # replace node k, in every interface that lists it as a base, by a
             # twin: a distinct interface with the same name, module and bases
             # (as a module reload produces) and its own definitions
@@ -330,6 +344,14 @@ def run(ctx):
                     # twin is equal to the interface it replaces, and change
                     # notifications are keyed by equality (known finding)
                     cases.append((dag, defs, (('swap', k), o), 2, None, 'twin-then-rebase'))
+    # tags set later, on any node, with warm caches; alone and around a rebasing
+    for dag in gen.dags(rn, 2):
+        for defs in itertools.product((0, 1), repeat=rn):
+            for k in range(rn):
+                cases.append((dag, defs, (('settag', k),), 1))
+                for o in ops[::3]:
+                    cases.append((dag, defs, (('settag', k), o), 2))
+                    cases.append((dag, defs, (o, ('settag', k)), 2))
     # an observer subscribed to a node looks at it from inside the notification,
     # or raises there (propagation stops; everything must stay self-consistent)
     for dag in gen.dags(rn, 2):
